@@ -45,16 +45,26 @@ ElemActs(a) ==
   \cup {F([op |-> "update_item", attr |-> a, key |-> k, item |-> it, kw |-> kw], fl) : k \in S(P(a).kp), it \in S(P(a).uip), kw \in S(P(a).ikwp), fl \in CowInp}
   \cup {F([op |-> "transform_item", attr |-> a, key |-> k, f |-> f, kwf |-> kwf], fl) : k \in S(P(a).kp), f \in S(P(a).ifp), kwf \in S(P(a).ikwfp), fl \in CowInp}
   \cup {F([op |-> "without_item", attr |-> a, key |-> k], fl) : k \in S(P(a).kp), fl \in CowInp}
+  ELSE IF ASpec(CT, Root, a).ty.k = "kset" THEN          \* KeyedSet of keyed spec items: keyword forms as for lists of spec items
+       {F([op |-> "with_item", attr |-> a, item |-> it, kw |-> kw], fl) : it \in S(P(a).ip), kw \in S(P(a).ikwp), fl \in CowInp}
+  \cup {F([op |-> "update_item", attr |-> a, voi |-> vo, item |-> it, kw |-> kw], fl) : vo \in S(P(a).vop), it \in S(P(a).uip), kw \in S(P(a).ikwp), fl \in CowInp}
+  \cup {F([op |-> "transform_item", attr |-> a, voi |-> vo, f |-> f, kwf |-> kwf], fl) : vo \in S(P(a).vop), f \in S(P(a).ifp), kwf \in S(P(a).ikwfp), fl \in CowInp}
+  \cup {F([op |-> "without_item", attr |-> a, voi |-> vo], fl) : vo \in S(P(a).vop), fl \in CowInp}
   ELSE
        {F([op |-> "with_item", attr |-> a, item |-> it, kw |-> <<>>], fl) : it \in S(P(a).ip), fl \in CowInp}
   \cup {F([op |-> "update_item", attr |-> a, voi |-> vo, item |-> it, kw |-> <<>>], fl) : vo \in S(P(a).vop), it \in S(P(a).uip), fl \in CowInp}
   \cup {F([op |-> "transform_item", attr |-> a, voi |-> vo, f |-> f], fl) : vo \in S(P(a).vop), f \in S(P(a).ifp), fl \in CowInp}
   \cup {F([op |-> "without_item", attr |-> a, voi |-> vo], fl) : vo \in S(P(a).vop), fl \in CowInp}
 
+\* replacement instances for update(<instance>, **kw): two constructible states of the root class
+ReplPool == LET ok == {r.val : r \in {rr \in {Construct(CT, Root, kw) : kw \in S(Pools._top.init)} : IsOk(rr)}} IN
+            IF ok = {} THEN {} ELSE LET x == CHOOSE v \in ok : TRUE IN IF ok = {x} THEN {x} ELSE {x, CHOOSE v \in ok \ {x} : TRUE}
 TopActs ==
        {F([op |-> "update_top", kw |-> kw], fl) : kw \in S(Pools._top.kw), fl \in Flags}
   \cup {F([op |-> "transform_top", kwf |-> kwf], fl) : kwf \in S(Pools._top.kwf), fl \in CowInp}
   \cup {F([op |-> "reset_top"], fl) : fl \in CowInp}
+  \cup {F([op |-> "construct", kw |-> kw], [inplace |-> FALSE, iff |-> TRUE]) : kw \in S(Pools._top.kw) \cup S(Pools._top.init)}
+  \cup {F([op |-> "update_repl", v |-> v, kw |-> kw], [inplace |-> FALSE, iff |-> TRUE]) : v \in ReplPool, kw \in S(Pools._top.kw)}
 
 PropActs == UNION {{[op |-> "read", p |-> p], [op |-> "delprop", p |-> p]} \cup {[op |-> "override", p |-> p, v |-> v] : v \in S(Pools._top.ovp)} : p \in PropNames(CT, Root)}
 Acts == UNION {ScalarActs(a) \cup ElemActs(a) : a \in AttrSet(CT, Root)} \cup TopActs \cup PropActs
@@ -83,7 +93,7 @@ PropAtomic == [][last'.res # {"ok"} => o' = o]_vars
 \* C05 lemma: obj.a = v  is  with_a(v, _inplace=True);  copy-on-write and in-place forms compute the same value
 PropSetAttrIsWith == [][LET a == last'.a IN a.op = "setattr" =>
                           Step(CT, o, a).val = Step(CT, o, [op |-> "with", attr |-> a.attr, v |-> a.v, kw |-> <<>>, inplace |-> TRUE, iff |-> TRUE]).val]_vars
-PropCowEqualsInplace == [][LET a == last'.a IN "inplace" \in DOMAIN a =>
+PropCowEqualsInplace == [][LET a == last'.a IN "inplace" \in DOMAIN a /\ a.op \notin {"update_repl", "construct"} =>
                              LET x == Step(CT, o, [a EXCEPT !.inplace = TRUE]) y == Step(CT, o, [a EXCEPT !.inplace = FALSE])
                              IN (~Frozen(CT, o) => x.val = y.val /\ x.res = y.res)]_vars
 \* C05: _if=False makes every helper a no-op returning the receiver
